@@ -20,7 +20,7 @@ EXTRA = {
     'C05': 'C05.e Determinant keeps no state in the object, or every member that can change the entries (also through a mutable reference it hands out) resets it; the row operation of the elimination covers every column of the work array; the pivot may be read into a local only after the exchange',
     'C01': 'data-dependent alternatives of the Steffen slope stay inside the monotonicity box on a sample table of secants (zeros, both signs, 1e-20..1e6); every returning path of Interpolate evaluates the segment polynomial (shortcuts only at exactly tested points)',
     'C04': 'block (r,c) of the block constructor lands at the prefix sums of heights/widths (running offsets by closed form, 3x3 layout with distinct prefix sums); multi-path Norm on small concrete objects; size invariant of Vector (components.size()==dimension after every writer) and copy completeness of the copy constructors / operator= of Vector and Matrix (every member copied on every path)',
-    'C06': 'C06.k the starting value of the Inv_GammaP iteration is non-decreasing in p on a (p,a) grid; GammaP+GammaQ=1 as an identity of terms on every pair of branches; no history-carrying function-local state in the gamma family (exact caches exempt)',
+    'C06': 'C06.l a probability computed from the a>100 quadrature is clamped to [0,1]; C06.k the starting value of the Inv_GammaP iteration is non-decreasing in p on a (p,a) grid; GammaP+GammaQ=1 as an identity of terms on every pair of branches; no history-carrying function-local state in the gamma family (exact caches exempt)',
     'C07': 'the tabulated KDE value is the kernel sum divided by bandwidth times the total weight',
     'C08': 'cached state of the integral/extremum queries: every writer of an input of the cached value (transitively through in-class helpers) touches the cache',
     'C10': 'every field the domain guard of Locate reads is computed after the abscissae received their unit factor; Export_Table checks the length of every row; an order guard written with std::adjacent_find',
@@ -28,7 +28,7 @@ EXTRA = {
     'C14': 'C14.a per call site of Vegas in Integrate_MC (a continuation run with init>0 is undecided); the bin of a Vegas sample point is the integer part of its own stratified coordinate; every value Miser writes into its mean is the mean of the box\'s own samples or the fraction-weighted mean of its two halves',
     'C15': 'QR and the eigen routines inherit the obligations of C04 about Norm/Normalize/products/block constructor; C15.a/b/c are decided on normal forms of object-valued terms (reflector I-2uu^T, one QR sweep incl. early-continue paths, one QR iteration and its convergence measure)',
     'C19': 'Range (strided loops summarised, a branch through the function itself unfolded once, std::reverse) is evaluated as a closed form on the complete domain min,max in [-40,40], stepsize 1..40',
-    'C20': 'a container overload of In_Units may hand the input back only where the unit factor is 1 and no rounding is requested; Count_Lines counts every line unconditionally; Export/Import element and unit terms are evaluated in the loop state',
+    'C20': 'header lines are skipped as whole lines (unbounded ignore count or getline); a container overload of In_Units may hand the input back only where the unit factor is 1 and no rounding is requested; Count_Lines counts every line unconditionally; Export/Import element and unit terms are evaluated in the loop state',
 }
 
 # property -> (technique, decided clauses, not decided clauses)
@@ -72,9 +72,9 @@ CLAIMS = {
     'C03': ('parameter-contract checking of the recursive helper by symbolic substitution (provenance of samples), path conditions on a finite grid',
             'C03.a accepted panel equals Boole\'s rule (7,32,12,32,7)/90 given the coarse Simpson estimate; C03.b the parameter contract (fa=F(a), fb=F(b), fc=F(mid), '
             'S=Simpson(a,b)) is preserved at both recursive call sites and established by the entry for both limit orientations; C03.c epsilon/2, depth-1, '
-            'acceptance |S2-S|<=15 epsilon (absolute) or depth<=0; C03.d two evaluations per activation at the quarter points, three in the entry, two recursive '
+            'acceptance |S2-S|<=15 epsilon (absolute) or depth<=0, and a panel accepted only because the depth is exhausted sets the non-convergence flag, which Integrate reports; C03.d two evaluations per activation at the quarter points, three in the entry, two recursive '
             'calls (hence <= 2^(depth+2)+1 evaluations, all convex combinations of a,b); C03.e a==b short-cut before any evaluation, sign applied exactly once, epsilon only through |epsilon|',
-            'the 4*epsilon a-posteriori bound for estimator-regular integrands (an analytic statement about the integrand class); rounding'),
+            'the 4*epsilon a-posteriori bound for estimator-regular integrands (an analytic statement about the integrand class; it cannot hold for a panel accepted at exhausted depth, which is returned with a warning); rounding'),
     'C05': ('structural dominance rules on the elimination loop nest + symbolic summary of the cofactor expansion',
             'C05.a every elimination ratio W[j][i]/W[i][i] is preceded, in every sweep and unconditionally, by a magnitude scan over the rows below the diagonal and an exchange '
             'of whole rows; C05.b cofactor expansion: sum over all columns of (-1)^j a[0][j] det(Sub_Matrix(0,j)) (or a running sign flipped on every path), 1x1 and 2x2 closed forms, '
@@ -122,7 +122,7 @@ CLAIMS = {
             'sign difference of exactly the two values that become (f1,f2); C02.d NaN ends exit, f(l)f(r)>0 exits, an exact zero at an end is returned as is; '
             'C02.e a previous-iterate variable, if the stopping test has one, starts at a constant sentinel; the loop returns on a distance test against the accuracy or on f(x4)==0; '
             'C02.f what the accepting test certifies: the distance compared with xAccuracy is the width of the maintained bracket (f1 f2<0) and the returned point lies in it '
-            '(intermediate value theorem; a test between successive iterates certifies nothing - that was the pinned tree, repaired by a2733ce)',
+            '(intermediate value theorem; a test between successive iterates certifies nothing - that was the pinned tree, repaired by c5f5b05)',
             'that the bracket shrinks below the accuracy within the 50 iterations for every function and accuracy (convergence), exactness on linear functions to rounding'),
     'C07': ('symbolic differentiation/limits of the extracted closed forms (sympy), sum summaries of the discrete families, wiring checks, dependency on C06 rules',
             'C07.a for uniform, normal, exponential, Maxwell-Boltzmann and chi-square: d/dx CDF == PDF on the support, the PDF vanishes exactly on the constant CDF branches, '
